@@ -221,7 +221,7 @@ int main(int argc, char** argv)
         if (base.find("UNEXPECTED") != std::string::npos) vx::violation("C14d-serial-verdict", "serial configuration gives an unexpected verdict: " + base, base);
         for (int w : ws) for (int f : fs) {
             if (w == 0 && f == 0) continue;
-            if (vx::deadline_reached()) { complete = false; break; }
+            if (vx::elapsed() > 0.3 * vx::ctx().deadline_s) { complete = false; break; } // the sweep gets 30% of the tier budget
             std::string got = d::RunConfig(w, f, n_blocks);
             n_cfg++;
             if (got != base) vx::violation("C14d-config-differs[workers=" + std::to_string(w) + ",fetchers=" + std::to_string(f) + "]", "observations differ from the serial run: serial {" + base + "} parallel {" + got + "}", "workers " + std::to_string(w) + " fetchers " + std::to_string(f));
